@@ -12,7 +12,7 @@ run() { # patch id expect
   rm -rf "$scratch"
   if [ "$rc" = "$3" ]; then echo "ok   $2 $1 (exit $rc)"; else echo "FAIL $2 $1 (exit $rc, expected $3)"; bad=1; fi
 }
-for p in mutants/*/*.patch; do
+for p in mutants/C[0-9]*/*.patch; do
   id=$(basename "$(dirname "$p")")
   case "$(basename "$p")" in NEGCTL_*) run "$(realpath "$p")" "$id" 0 ;; *) run "$(realpath "$p")" "$id" 1 ;; esac
 done
